@@ -666,7 +666,7 @@ Proof.
   - intros Gv' E'.
     destruct (r_cell _ _ _ HR) as [[Gq C]|[Et [Gf [_ [_ [j [R [E [A [B _]]]]]]]]]].
     + assert (E0 : mb (gh x) = MBTaken u tgt).
-      { destruct (r_mb _ _ _ HR) as [F|[[F _]|[[F F']|[s [F [F' _]]]]]]; try congruence.
+      { destruct (r_mb _ _ _ HR) as [F|[[F [F'|F']]|[[F F']|[s [F [F' _]]]]]]; try congruence.
         rewrite Gq in Gv'. destruct (g_gave _ HG Gv') as [s' Q]. congruence. }
       rewrite Gq in Gv'. destruct (H3 Gv' E0) as [R [A B]]. exists R. split; [eapply st_gfin_some; eauto|].
       now rewrite C.
